@@ -38,6 +38,14 @@ static inline uint64_t spec_f64_bits(double f) { union { double f; uint64_t u; }
 
 #define SPEC_IMPLIES(a, b) (!(a) || (b))
 
+/* a condition that only the native replay evaluates (e.g. "the real strlen of this input equals the ghost length"); in the
+ * verifier the same fact is carried by the ghost-index stub of the library function */
+#ifdef SBV_CPROVER
+#define SPEC_NATIVE_ONLY(c) 1
+#else
+#define SPEC_NATIVE_ONLY(c) (c)
+#endif
+
 #ifndef SBV_CPROVER
 /* native replay: CBMC primitives used in preconditions */
 #define __CPROVER_overflow_mult(a, b) __builtin_mul_overflow_p((a), (b), (__typeof__((a) * (b)))0)
